@@ -172,6 +172,10 @@ def c01(c):
     g = McOutcome()
     model_check(g, [dict(module="Gen_SignPaths", cfg="Gen_SignPaths_deep" if thorough else "Gen_SignPaths", workers=1, env={"GEN_DIR": gen})])
     c.add_mc(g)
+    # the codec step of sign / verify on s2 vectors inside the bound that honest randomness practically never produces (large coefficients)
+    drive("c01-codec", ["--tier", c.tier, "--seed", c.seed, "--out", c.work, "--shards", 14])
+    to = validate_traces("Trace_Codec", traces_in(c.work, "codec"), parallel=PAR)
+    c.add_traces(to, keyfn=codec_key, label="codec")
     drive("c01", ["--tier", c.tier, "--seed", c.seed, "--out", c.work, "--shards", 14, "--paths", os.path.join(gen, "signpaths.ndjson")])
     to = validate_traces("Trace_Verify", traces_in(c.work, "verify"), parallel=PAR)
     c.add_traces(to, keyfn=verify_key, label="verify")
